@@ -64,8 +64,19 @@ func (g *G) Count(q, t int) int {
 }
 
 // Emit runs op on args and prints the line.
+// After too many hanging ops the generator stops emitting: a change that makes the code under test block would otherwise
+// cost (cases × op timeout). What was emitted so far is still compared; the hangs themselves are reported.
+var hangCount int
+var maxHangs = 8
+
 func (g *G) Emit(op string, args ...string) {
+	if hangCount >= maxHangs {
+		return
+	}
 	line := runLine(g.Prop, op, args)
+	if strings.HasSuffix(line, " => hang") || strings.Contains(line, " => hang;") {
+		hangCount++
+	}
 	g.out.WriteString(line)
 	g.out.WriteByte('\n')
 	g.N++
